@@ -384,7 +384,7 @@ theorem implyChain_spec {NS : NodeStore} {inv : NS.τ → Prop} (hNS : NS.Sound 
       cases hp : l.pol
       · refine ⟨_, _, rfl, hNS.inv_step t ht _ _ _, ?_, ?_, ?_⟩
         · intro a
-          simp only [Bool.false_eq_true, if_false, hNS.eval_eq t ht, Ptr.eval, litSat, hp]
+          simp only [hNS.eval_eq t ht, Ptr.eval, litSat, hp]
           cases a l.var <;> simp
         · intro x hx
           have := hNS.vars_sub t ht _ _ _ x hx
@@ -392,7 +392,7 @@ theorem implyChain_spec {NS : NodeStore} {inv : NS.τ → Prop} (hNS : NS.Sound 
         · exact hNS.free t ht _ _ _ ⟨hl, by simp [Ptr.vars], hf, trivial⟩
       · refine ⟨_, _, rfl, hNS.inv_step t ht _ _ _, ?_, ?_, ?_⟩
         · intro a
-          simp only [if_true, hNS.eval_eq t ht, Ptr.eval, litSat, hp]
+          simp only [hNS.eval_eq t ht, Ptr.eval, litSat, hp]
           cases a l.var <;> simp
         · intro x hx
           have := hNS.vars_sub t ht _ _ _ x hx
@@ -429,6 +429,8 @@ structure GoodM (cnf : Cnf) (m : PModel) (r : Ptr) : Prop where
   sem : ∀ a, Extends a m → r.eval a = cnfSat a cnf
   free : r.free
   vars : ∀ v ∈ r.vars, InCnf (residual cnf m) v
+  /-- anything but the false constant has a model among the extensions of `m` -/
+  nonfalse : r ≠ .fls → ∃ a, Extends a m ∧ r.eval a = true
 
 /-- THE cache-reuse lemma: a diagram that is good under `m0` is good under every `m` with the
 same residual formula.  (The variable clause of `GoodM` is what makes this true.) -/
@@ -436,6 +438,11 @@ theorem GoodM.transfer {cnf : Cnf} {m0 m : PModel} {r : Ptr} (h : GoodM cnf m0 r
     (hres : residual cnf m = residual cnf m0) : GoodM cnf m r where
   free := h.free
   vars := fun v hv => hres ▸ h.vars v hv
+  nonfalse := fun hne => by
+    obtain ⟨a, _, he⟩ := h.nonfalse hne
+    refine ⟨override a m, override_extends a m, ?_⟩
+    rw [← he]
+    exact eval_congr_vars r fun v hv => override_unset a (residual_unset (hres ▸ h.vars v hv))
   sem := fun a ha => by
     have h1 : r.eval a = r.eval (override a m0) :=
       eval_congr_vars r fun v hv => (override_unset a (residual_unset (h.vars v hv))).symm
@@ -446,7 +453,8 @@ theorem GoodM.transfer {cnf : Cnf} {m0 m : PModel} {r : Ptr} (h : GoodM cnf m0 r
 
 theorem GoodM.tru_of {cnf : Cnf} {m : PModel} (h : ∀ a, Extends a m → cnfSat a cnf = true) :
     GoodM cnf m .tru :=
-  ⟨fun a ha => (h a ha).symm, trivial, fun v hv => by simp [Ptr.vars] at hv⟩
+  ⟨fun a ha => (h a ha).symm, trivial, fun v hv => by simp [Ptr.vars] at hv,
+   fun _ => ⟨override (fun _ => false) m, override_extends _ m, rfl⟩⟩
 
 /-! ## Part 3c: unfolding `topdownH`; a second run on an observationally equal state hits the cache -/
 
@@ -473,7 +481,7 @@ theorem decideNode_cache (recur : S.σ → Cache S.κ → NS.τ → HRes S NS) (
 
 theorem Cache.get_cons_self {κ : Type} [DecidableEq κ] (k : κ) (r : Ptr) (c : Cache κ) :
     Cache.get ((k, r) :: c) k = some r := by
-  simp [Cache.get, List.find?_cons]
+  simp [Cache.get]
 
 theorem Cache.get_mem {κ : Type} [DecidableEq κ] {c : Cache κ} {k : κ} {r : Ptr}
     (h : Cache.get c k = some r) : (k, r) ∈ c := by
@@ -521,5 +529,97 @@ theorem topdownH_hit_after : ∀ (rem level : Nat) (s : S.σ) (c : Cache S.κ) (
           rw [hc2, Cache.get_cons_self]
 
 end
+
+/-! ## Part 4: the semantic store -/
+
+/-- the pointer `m` may stand in for the requested node `n` -/
+def Agrees (n m : Ptr) : Prop :=
+  (∀ a, m.eval a = n.eval a) ∧ (∀ x ∈ m.vars, x ∈ n.vars) ∧ (n.free → m.free)
+
+/-- the store state is keyed by the hash of the stored node -/
+def SemInv (semHash : Ptr → Nat) (st : List (Nat × Ptr)) : Prop := ∀ e ∈ st, e.1 = semHash e.2
+
+/-- **H-coll**, the collision hypothesis of the semantic store, in the form the structural
+theorems need: a node with the hash (resp. the negated hash) of a requested node may stand in
+for it (resp. for its complement): same function, no further variables, free if the request is.
+By pigeonhole this is false for a hash into a finite field as soon as there are more
+functions than field elements; it holds e.g. for an injective `semHash` whose range `negH`
+avoids.  (For the *function* alone the weaker `CollisionFreeFn` suffices, see
+`getOrInsertSemantic_eval`.) -/
+def CollisionFree (semHash : Ptr → Nat) (negH : Nat → Nat) : Prop :=
+  ∀ n m : Ptr, (semHash m = semHash n → Agrees n m) ∧ (semHash m = negH (semHash n) → Agrees n m.neg)
+
+/-- function-level collision freedom: equal hashes ⇒ equal functions, complementary hashes ⇒
+complementary functions -/
+def CollisionFreeFn (semHash : Ptr → Nat) (negH : Nat → Nat) : Prop :=
+  ∀ n m : Ptr, (semHash m = semHash n → ∀ a, m.eval a = n.eval a) ∧
+    (semHash m = negH (semHash n) → ∀ a, m.eval a = !(n.eval a))
+
+theorem Agrees.refl (n : Ptr) : Agrees n n := ⟨fun _ => rfl, fun _ h => h, fun h => h⟩
+
+theorem find?_key {st : List (Nat × Ptr)} {h : Nat} {e : Nat × Ptr}
+    (he : st.find? (fun e => e.1 == h) = some e) : e ∈ st ∧ e.1 = h := by
+  have h1 := List.find?_some he
+  simp only [beq_iff_eq] at h1
+  exact ⟨List.mem_of_find?_eq_some he, h1⟩
+
+/-- what `get_or_insert` of the semantic store returns, in terms of `Agrees` -/
+theorem getOrInsertSemantic_agrees {semHash : Ptr → Nat} {negH : Nat → Nat}
+    (hcf : CollisionFree semHash negH) {st : List (Nat × Ptr)} (hst : SemInv semHash st)
+    (v : Nat) (lo hi : Ptr) :
+    Agrees (.node false v lo hi) (getOrInsertSemantic semHash negH st v lo hi).1 ∧
+    SemInv semHash (getOrInsertSemantic semHash negH st v lo hi).2 := by
+  unfold getOrInsertSemantic
+  simp only
+  cases h1 : st.find? (fun e => e.1 == semHash (.node false v lo hi)) with
+  | some e =>
+    obtain ⟨hm, hk⟩ := find?_key h1
+    exact ⟨(hcf _ e.2).1 ((hst e hm).symm.trans hk), hst⟩
+  | none =>
+    simp only
+    cases h2 : st.find? (fun e => e.1 == negH (semHash (.node false v lo hi))) with
+    | some e =>
+      obtain ⟨hm, hk⟩ := find?_key h2
+      exact ⟨(hcf _ e.2).2 ((hst e hm).symm.trans hk), hst⟩
+    | none =>
+      refine ⟨Agrees.refl _, ?_⟩
+      intro e he
+      rcases List.mem_append.1 he with h | h
+      · exact hst e h
+      · simp only [List.mem_singleton] at h; subst h; rfl
+
+/-- the semantic store satisfies the node-store contract under `CollisionFree` -/
+theorem semanticStore_sound {semHash : Ptr → Nat} {negH : Nat → Nat} (hcf : CollisionFree semHash negH) :
+    (semanticStore semHash negH).Sound (SemInv semHash) where
+  inv_step := fun _ ht v lo hi => (getOrInsertSemantic_agrees hcf ht v lo hi).2
+  eval_eq := fun _ ht v lo hi a => (getOrInsertSemantic_agrees hcf ht v lo hi).1.1 a
+  vars_sub := fun _ ht v lo hi => (getOrInsertSemantic_agrees hcf ht v lo hi).1.2.1
+  free := fun _ ht v lo hi => (getOrInsertSemantic_agrees hcf ht v lo hi).1.2.2
+
+/-- with function-level collision freedom alone the returned pointer denotes the request -/
+theorem getOrInsertSemantic_eval {semHash : Ptr → Nat} {negH : Nat → Nat}
+    (hcf : CollisionFreeFn semHash negH) {st : List (Nat × Ptr)} (hst : SemInv semHash st)
+    (v : Nat) (lo hi : Ptr) (a : Assign) :
+    (getOrInsertSemantic semHash negH st v lo hi).1.eval a = (Ptr.node false v lo hi).eval a ∧
+    SemInv semHash (getOrInsertSemantic semHash negH st v lo hi).2 := by
+  unfold getOrInsertSemantic
+  simp only
+  cases h1 : st.find? (fun e => e.1 == semHash (.node false v lo hi)) with
+  | some e =>
+    obtain ⟨hm, hk⟩ := find?_key h1
+    exact ⟨(hcf _ e.2).1 ((hst e hm).symm.trans hk) a, hst⟩
+  | none =>
+    simp only
+    cases h2 : st.find? (fun e => e.1 == negH (semHash (.node false v lo hi))) with
+    | some e =>
+      obtain ⟨hm, hk⟩ := find?_key h2
+      refine ⟨?_, hst⟩
+      rw [eval_neg, (hcf _ e.2).2 ((hst e hm).symm.trans hk) a, Bool.not_not]
+    | none =>
+      refine ⟨rfl, ?_⟩
+      intro e he
+      rcases List.mem_append.1 he with h | h
+      · exact hst e h
+      · simp only [List.mem_singleton] at h; subst h; rfl
 
 end TopDown
